@@ -154,6 +154,14 @@ impl Write for DBFile {
     }
 
     fn write(&mut self, buf: &[u8]) -> io::Result<usize> {
+        #[cfg(feature = "verif")]
+        {
+            let offset = self.f.stream_position()?;
+            let n = self.f.write(buf)?;
+            crate::verif::iotap::on_write(&self.p, offset, &buf[..n]);
+            return Ok(n);
+        }
+        #[cfg(not(feature = "verif"))]
         self.f.write(buf)
     }
 }
@@ -181,6 +189,9 @@ impl FileOperations for DBFile {
             .sync_on_write(false) // This is O_DSYNC (not used for now)
             .open(&path)?;
 
+        #[cfg(feature = "verif")]
+        crate::verif::iotap::on_create(path.as_ref());
+
         Ok(Self {
             f,
             p: path.as_ref().to_path_buf(),
@@ -195,6 +206,8 @@ impl FileOperations for DBFile {
             .bypass_cache(true)
             .sync_on_write(false)
             .open(&path)?;
+        #[cfg(feature = "verif")]
+        crate::verif::iotap::on_open(path.as_ref());
         Ok(Self {
             f,
             p: path.as_ref().to_path_buf(),
@@ -208,11 +221,15 @@ impl FileOperations for DBFile {
 
     // truncate the file to 0 len
     fn truncate(&mut self) -> io::Result<()> {
+        #[cfg(feature = "verif")]
+        crate::verif::iotap::on_truncate(&self.p);
         self.f.set_len(0)
     }
 
     // sync the file to disk
     fn sync_all(&self) -> io::Result<()> {
+        #[cfg(feature = "verif")]
+        crate::verif::iotap::on_sync(&self.p);
         File::sync_all(&self.f)
     }
 }
